@@ -44,7 +44,8 @@ OPT = lambda s: st.one_of(st.none(), st.just(0), s)   # noqa: E731
 PIN = st.integers(0, 7)
 BIT = st.sampled_from([0, 1])
 RES = st.integers(-3, 9)
-PAUSE = st.one_of(st.sampled_from([-5, 0, 1, 2, 749, 750, 751, 1499, 1500, 1501, 2250]), st.integers(-10, 5000))
+PAUSE = st.one_of(st.sampled_from([-5, 0, 1, 2, 749, 750, 751, 1499, 1500, 1501, 2250]), st.integers(-10, 5000),
+                  st.integers(-10, 5000), st.integers(5000, 2000000))
 
 
 def clamp(r):
@@ -452,6 +453,10 @@ def cases(draw):
 
 def grid():
     for n in range(-5, 3001):
+        yield {"layer": "legacy", "helper": "doTimedPause", "args": [n]}
+        yield {"layer": "ebb3", "helper": "timed_pause", "args": [n]}
+    for n in (750 * 999, 750 * 1000 + 1, 1500000):
+        # a quarter of an hour and more: over a thousand zero-move commands from one call
         yield {"layer": "legacy", "helper": "doTimedPause", "args": [n]}
         yield {"layer": "ebb3", "helper": "timed_pause", "args": [n]}
     for r in range(-3, 10):
